@@ -1052,8 +1052,8 @@ class TermCanvas(Canvas):
         .XXX
         XX..
         """
-        sx, sy = self.constrain_coords(*start)
-        ex, ey = self.constrain_coords(*end)
+        sx, sy = self.constrain_coords(*start, ignore_scrolling=True)
+        ex, ey = self.constrain_coords(*end, ignore_scrolling=True)
 
         # within a single row
         if sy == ey:
